@@ -405,6 +405,39 @@ Definition step (fx : bool) (c : cache) (o : op) : cache * out :=
 
 Definition run (fx : bool) (c : cache) (ops : list op) : cache := fold_left (fun c o => fst (step fx c o)) ops c.
 
+(** ** SetCausal (CausalOptions.Except): inside a forward pass the model may exempt batch indices from the causal part of
+    the mask (gemma3: the tokens of an image attend to each other in both directions).  The cache keeps the current
+    exemption list ([c.opts.Except]); StartForward resets it, SetCausal rebuilds the mask when the list changes (and a
+    context is given).  A pass is modelled by the exemption list and the mask rows currently returned by Get. *)
+Definition visible_ex (w : option Z) (cl : cell) (q : nat) (p : Z) (enabled : bool) : bool :=
+  has q cl && negb (enabled && (p <? c_pos cl)) &&
+  negb (match w with None => c_pos cl <? p - MaxInt32 | Some w => c_pos cl <? p - w end).
+
+Definition mask_row_ex (w : option Z) (cs : list cell) (pr : rng) (q : nat) (p : Z) (enabled : bool) : list nat :=
+  filter (fun j => visible_ex w (cell_at cs j) q p enabled)
+         (map Z.to_nat (seqZ (fst pr) (Z.to_nat (snd pr - fst pr + 1)))).
+
+Definition rows_ex (c : cache) (pr : rng) (batch : list entry) (ex : list nat) : list (list nat) :=
+  mapi (fun i (e : entry) => let '(q, p, _) := e in
+          mask_row_ex (window c) (cells c) pr q p (negb (existsb (Nat.eqb i) ex))) batch.
+
+Record pass := mkPass { p_except : list nat; p_vis : list (list nat) }.
+
+Fixpoint list_eqb (a b : list nat) : bool :=
+  match a, b with
+  | [], [] => true
+  | x :: a', y :: b' => Nat.eqb x y && list_eqb a' b'
+  | _, _ => false
+  end.
+
+(** [SetCausal(ctx, CausalOptions{Except: ex})]; [ctx = false] stands for a nil context (options stored, mask not rebuilt) *)
+Definition set_causal (c : cache) (pr : rng) (batch : list entry) (ps : pass) (ex : list nat) (ctx : bool) : pass :=
+  if list_eqb (p_except ps) ex then ps
+  else mkPass ex (if ctx then rows_ex c pr batch ex else p_vis ps).
+
+(** the pass right after StartForward: nothing exempt, the causal mask *)
+Definition pass_start (f : fwd_out) : pass := mkPass [] (f_vis f).
+
 (** ** backend faults.  The only error-returning backend calls inside the cache are the mask upload of [buildMask]
     (ctx.Input().FromFloatSlice) and, in [shift], the upload of the offsets (FromIntSlice) and the model's shift function.
     StartForward that fails there has already registered the batch (cells, ranges) - nothing is rolled back; Remove that
